@@ -45,6 +45,19 @@ def opMinv (args : List String) : String :=
     | _, _ => "bad-op"
   | _ => "bad-op"
 
+/-- `msub`: the model answer is the window read off the matrix directly; `gen=` says whether the regenerated
+`matrix.SubMatrix` returns that window (`RSV.Props.C17submatrix.C17m_SubMatrix` proves it does, for every window) -/
+def opMsub (args : List String) : String :=
+  match args.map String.toNat? with
+  | [some n, some seed, some r0, some c0, some r1, some c1] =>
+    if n = 0 ∨ ¬ (r0 < r1 ∧ r1 ≤ n ∧ c0 < c1 ∧ c1 ≤ n) then "bad-op" else
+    let a := minvMatrix n (UInt64.ofNat seed) "rand"
+    let win : Array (Array Nat) :=
+      Array.ofFn fun i : Fin (r1 - r0) => Array.ofFn fun j : Fin (c1 - c0) => (a[r0 + i.val]!)[c0 + j.val]!
+    let g := b01 (Gen.matrix_SubMatrix a (r0 : Int) (c0 : Int) (r1 : Int) (c1 : Int) == some (win, none))
+    s!"{hashRows win} | gen={g}"
+  | _ => "bad-op"
+
 def opBmat (args : List String) : String :=
   match args with
   | [kind, ds, ts] =>
